@@ -178,60 +178,313 @@ def r3(chk, prog, m):
     chk.floor(rid, n, 90, "integer comparison combinations")
 
 
+class _EqPE(pe.PE):
+    """json_object_equal on two containers whose members are scripted: tables, entries, element arrays and children are named heap
+    objects; the recursive comparison of two children and the lookups of the hash table / array list API are answered from the script"""
+
+    def __init__(self, prog, m, kind, left, right):
+        super().__init__(prog, max_leaves=40, max_steps=60000)
+        self.loop_widen = 1000
+        self.max_visits = 64
+        self.m = m
+        self.kind = kind                  # 'object' | 'array'
+        self.side = {"o1": left, "o2": right}      # object: [(key, child)], array: [child];  child = None | (name, value)
+        self.types = {}
+        for o in ("o1", "o2"):
+            self.types[o] = "%struct.json_object_object" if kind == "object" else "%struct.json_object_array"
+            self.types["t" + o[1]] = "%struct.lh_table"
+            self.types["al" + o[1]] = "%struct.array_list"
+            for k in range(len(self.side[o])):
+                self.types["e%s_%d" % (o[1], k)] = "%struct.lh_entry"
+        self.unknown = []
+
+    def should_inline(self, g, instr):
+        return g.internal
+
+    # -- script helpers
+    def _child(self, c):
+        return pe.C(0) if c is None else ("ptr", "c:" + c[0], ())
+
+    def _val_of(self, e):
+        if pe.is_const(e):
+            return ("null",) if e[1] == 0 else None
+        if e[0] == "ptr" and e[1].startswith("c:") and not e[2]:
+            for o in ("o1", "o2"):
+                for it in self.side[o]:
+                    c = it[1] if self.kind == "object" else it
+                    if c is not None and c[0] == e[1][2:]:
+                        return ("node", c[0], c[1])
+        return None
+
+    def _obj_of(self, e, prefixes):
+        """which side a pointer to the object / its table / its array list denotes"""
+        if e[0] == "ptr" and not [x for x in e[2] if x != ("i", 0)]:
+            for pf in prefixes:
+                if e[1] in (pf + "1", pf + "2"):
+                    return "o" + e[1][-1]
+        return None
+
+    def _key_of(self, e):
+        if e[0] == "ptr" and e[1].startswith("k:") and not [x for x in e[2] if x != ("i", 0)]:
+            return e[1][2:]
+        return None
+
+    def _names(self, base, path):
+        t = self._primary.get(base) or self.types.get(base)
+        if base in self.types and t is not None and self.prog_structs(t) is None:
+            t = self.types[base]
+        names = []
+        for p in path:
+            if p == ("i", 0):
+                continue
+            if isinstance(p, tuple) and p[0] == "f":
+                t, n = p[1], p[2]
+            elif isinstance(p, int):
+                n = p
+            else:
+                return None
+            fl = self.prog_structs(t) if t else None
+            fn = None
+            for mm in self.prog.modules:
+                fn = mm.struct_fields(t) if t else None
+                if fn:
+                    break
+            if not fl or not fn or n >= len(fl) or n >= len(fn):
+                return None
+            names.append(fn[n])
+            t = fl[n].strip()
+        # the address of an aggregate is the address of its first scalar member
+        while t and t.startswith("%struct.") and self.prog_structs(t):
+            fn = None
+            for mm in self.prog.modules:
+                fn = mm.struct_fields(t)
+                if fn:
+                    break
+            if not fn:
+                return None
+            names.append(fn[0])
+            t = self.prog_structs(t)[0].strip()
+        return tuple(names)
+
+    def init_mem(self, state, base, path, t):
+        if base.startswith("arr") and base[3:] in ("1", "2"):
+            el, fl = pe.fields_of(path)
+            items = self.side["o" + base[3:]]
+            if not fl and isinstance(el, int) and 0 <= el < len(items):
+                return self._child(items[el])
+            return pe.TOP
+        if base not in self.types:
+            return pe.TOP
+        nm = self._names(base, path)
+        if nm is None:
+            return pe.TOP
+        side = "o" + (base[-1] if not base.startswith("e") else base[1])
+        items = self.side[side]
+        if base in ("o1", "o2"):
+            if nm in (("base", "o_type"), ("o_type",)):
+                return pe.C(TYPES[self.kind])
+            if nm == ("c_object",) and self.kind == "object":
+                return ("ptr", "t" + base[1], ())
+            if nm == ("c_array",) and self.kind == "array":
+                return ("ptr", "al" + base[1], ())
+            return pe.TOP
+        if base.startswith("t"):
+            if nm == ("head",):
+                return ("ptr", "e%s_0" % base[1], ()) if items else pe.C(0)
+            if nm == ("tail",):
+                return ("ptr", "e%s_%d" % (base[1], len(items) - 1), ()) if items else pe.C(0)
+            if nm == ("count",):
+                return pe.C(len(items))
+            return pe.TOP
+        if base.startswith("al"):
+            if nm == ("length",):
+                return pe.C(len(items))
+            if nm == ("array",):
+                return ("ptr", "arr" + base[2], ())
+            return pe.TOP
+        if base.startswith("e"):
+            k = int(base.split("_")[1])
+            if nm == ("k",):
+                return ("ptr", "k:" + items[k][0], ())
+            if nm == ("v",):
+                return self._child(items[k][1])
+            if nm == ("next",):
+                return ("ptr", "e%s_%d" % (base[1], k + 1), ()) if k + 1 < len(items) else pe.C(0)
+            if nm == ("prev",):
+                return ("ptr", "e%s_%d" % (base[1], k - 1), ()) if k > 0 else pe.C(0)
+        return pe.TOP
+
+    def _lookup(self, side, key):
+        for k, (kk, c) in enumerate(self.side[side]):
+            if kk == key:
+                return k, c
+        return None, None
+
+    def call_model(self, state, frame, i, args):
+        nm = i.callee
+        if nm == "json_object_equal" and len(args) == 2:
+            a, b = self._val_of(args[0]), self._val_of(args[1])
+            if a is None or b is None:
+                return None
+            if a[0] == "null" or b[0] == "null":
+                return pe.C(int(a == b))
+            return pe.C(int(a[2] == b[2]))
+        if nm in ("json_object_get_type",):
+            return pe.C(TYPES[self.kind]) if self._obj_of(args[0], ["o"]) else None
+        if nm == "json_object_is_type" and self._obj_of(args[0], ["o"]) and pe.is_const(args[1]):
+            return pe.C(int(args[1][1] == TYPES[self.kind]))
+        if self.kind == "object":
+            if nm in ("json_object_get_object",):
+                o = self._obj_of(args[0], ["o"])
+                return ("ptr", "t" + o[1], ()) if o else None
+            if nm in ("json_object_object_length", "lh_table_length"):
+                o = self._obj_of(args[0], ["o", "t"])
+                return pe.C(len(self.side[o])) if o else None
+            if nm in ("lh_get_hash",):
+                return pe.C(7)
+            if nm in ("lh_table_lookup_ex", "json_object_object_get_ex", "lh_table_lookup_entry", "lh_table_lookup_entry_w_hash",
+                      "json_object_object_get"):
+                o = self._obj_of(args[0], ["o", "t"])
+                key = self._key_of(args[1]) if len(args) > 1 else None
+                if o is None or key is None:
+                    return None
+                k, c = self._lookup(o, key)
+                if nm in ("lh_table_lookup_entry", "lh_table_lookup_entry_w_hash"):
+                    return pe.C(0) if k is None else ("ptr", "e%s_%d" % (o[1], k), ())
+                if nm == "json_object_object_get":
+                    return pe.C(0) if k is None else self._child(c)
+                if len(args) > 2 and args[2][0] == "ptr":
+                    self.store(state, args[2], pe.C(0) if k is None else self._child(c))
+                return pe.C(int(k is not None))
+        else:
+            if nm == "json_object_get_array":
+                o = self._obj_of(args[0], ["o"])
+                return ("ptr", "al" + o[1], ()) if o else None
+            if nm in ("json_object_array_length", "array_list_length"):
+                o = self._obj_of(args[0], ["o", "al"])
+                return pe.C(len(self.side[o])) if o else None
+            if nm in ("json_object_array_get_idx", "array_list_get_idx"):
+                o = self._obj_of(args[0], ["o", "al"])
+                if o is None or not pe.is_const(args[1]):
+                    return None
+                k = args[1][1] % (1 << 64)
+                return self._child(self.side[o][k]) if k < len(self.side[o]) else pe.C(0)
+        if nm and not nm.startswith("llvm.") and nm != "__assert_fail":
+            g = self.prog.resolve(nm, frame.fn.module)
+            if g is None or not g.internal:
+                self.unknown.append(nm)
+        return None
+
+
+def _eq_value(c):
+    return ("null",) if c is None else c[1]
+
+
 def r4(chk, prog, m):
+    from itertools import permutations, product
     rid = "C09.R4"
-    chk.rule(rid, "object equality looks every member of each object up in the other one (both directions), compares the values of the "
-                  "first direction recursively, and returns 0 on any miss or inequality; array equality compares lengths and every index")
-    f = m.functions.get("json_object_all_values_equal")
-    chk.require(f is not None and not f.is_decl, "json_object_all_values_equal not found")
+    chk.rule(rid, "container equality decided by evaluating json_object_equal on scripted pairs of objects (keys from {a, b} in every "
+                  "insertion order, members null or nodes of two values) and arrays (up to 2 elements): the result is 1 exactly when both "
+                  "have the same key set / length and every corresponding pair of children compares equal; the comparison of children "
+                  "and the table / array lookups are answered from the script, so the rule holds for any decomposition into helpers")
+    f = m.functions.get("json_object_equal")
+    chk.require(f is not None and not f.is_decl, "json_object_equal not found")
     chk.touched(f)
-    P = Paths(f, prog)
-    cfg = cfg_of(f)
-    p1, p2 = f.params[0][1], f.params[1][1]
-    PRESENCE = ("lh_table_lookup_ex", "json_object_object_get_ex", "lh_table_lookup_entry", "lh_table_lookup_entry_w_hash")
-    looks = [i for i in f.instrs() if i.op == "call" and i.callee in PRESENCE]
-    blind = [i for i in f.instrs() if i.op == "call" and i.callee in ("json_object_object_get",)]
-    dirs = set()
-    for l in looks:
-        tp = P.path(l.ops[0])
-        dirs.add(("in " + (p1 if tp.startswith(p1) else p2 if tp.startswith(p2) else "?")))
-    eqs = [i for i in f.instrs() if i.op == "call" and i.callee == "json_object_equal"]
-    lens = [i for i in f.instrs() if i.op == "call" and i.callee in ("json_object_object_length", "lh_table_length")]
-    from .c20 import _returns_only
-    miss_ok = True
-    for c in looks + eqs:
-        regs, cons = derived_values(f, c.res)
-        ok = False
-        for u, r in cons:
-            if u.op == "icmp":
-                for br in cfg.users(u.res):
-                    if br.op == "br" and len(br.x["targets"]) == 2:
-                        for tname in br.x["targets"]:
-                            if _returns_only(f, f.blocks[tname], lambda v: v.kind == "int" and v.v == 0):
-                                ok = True
-        miss_ok = miss_ok and ok
-    both = dirs == {"in " + p1, "in " + p2}
-    counted = len(lens) >= 2 and len(dirs - {"in ?"}) >= 1
-    if blind:
-        chk.refuted(rid, f.name, "both directions", blind[0].locstr(),
-                    "members are looked up with %s, which returns NULL both for a missing key and for a key holding JSON null: an object with a "
-                    "null member compares equal to one that lacks the key" % blind[0].callee)
-    elif (both or counted) and len(eqs) >= 1 and miss_ok:
-        chk.proven(rid, f.name, "both directions", looks[0].locstr(),
-                   ("lookups in both objects" if both else "equal member counts and a presence-aware lookup of every member") +
-                   ", recursive comparison, miss/inequality => 0")
-    else:
-        chk.refuted(rid, f.name, "both directions", f.entry.term.locstr(),
-                    "object equality does not cover both key sets (directions %s, member-count comparisons %d, value comparisons %d, "
-                    "miss => 0: %s)" % (sorted(dirs), len(lens), len(eqs), miss_ok))
-    g = m.functions.get("json_array_equal")
-    chk.require(g is not None and not g.is_decl, "json_array_equal not found")
-    chk.touched(g)
-    calls = [i.callee for i in g.instrs() if i.op == "call" and i.callee]
-    if calls.count("json_object_array_length") >= 2 and "json_object_equal" in calls and calls.count("json_object_array_get_idx") >= 2:
-        chk.proven(rid, g.name, "arrays", g.entry.term.locstr(), "lengths compared, then element-wise recursive comparison")
-    else:
-        chk.refuted(rid, g.name, "arrays", g.entry.term.locstr(), "array equality does not compare the lengths and every element pair")
+    for nm in ("json_object_all_values_equal", "json_array_equal"):
+        g = m.functions.get(nm)
+        if g is not None and not g.is_decl:
+            chk.touched(g)
+    n = 0
+    # ---- objects
+    objs = [[]]
+    for ks in (("a",), ("b",), ("a", "b"), ("b", "a")):
+        objs += [list(zip(ks, vs)) for vs in product((None, "v1", "v2"), repeat=len(ks))]
+    cls_of = {}
+    bad, und = {}, {}
+    ORDER = ("objects: same keys, equal members", "objects: same keys, a member differs", "objects: a key of the first is missing in the second",
+             "objects: the second has a key the first lacks")
+    for L in objs:
+        for Rr in objs:
+            left = [(k, None if v is None else ("l_" + k, v)) for k, v in L]
+            right = [(k, None if v is None else ("r_" + k, v)) for k, v in Rr]
+            dl, dr = dict(left), dict(right)
+            if set(dl) - set(dr):
+                cls, want = ORDER[2], 0
+            elif set(dr) - set(dl):
+                cls, want = ORDER[3], 0
+            elif all(_eq_value(dl[k]) == _eq_value(dr[k]) for k in dl):
+                cls, want = ORDER[0], 1
+            else:
+                cls, want = ORDER[1], 0
+            h = _EqPE(prog, m, "object", left, right)
+            leaves = h.run(f, [("ptr", "o1", ()), ("ptr", "o2", ())], pe.State())
+            n += 1
+            cls_of[cls] = cls_of.get(cls, 0) + 1
+            outs = set()
+            for lf in leaves:
+                if lf.kind == "ret" and lf.value is not None and pe.is_const(lf.value):
+                    outs.add(int(lf.value[1] != 0))
+                else:
+                    outs.add("?")
+            desc = "{%s} against {%s}" % (", ".join("%s: %s" % (k, v or "null") for k, v in L), ", ".join("%s: %s" % (k, v or "null") for k, v in Rr))
+            if "?" in outs or not outs:
+                und.setdefault(cls, (desc, sorted(set(h.unknown))))
+            elif outs != {want}:
+                bad.setdefault(cls, (desc, outs, want))
+    for cls in ORDER:
+        if cls in bad:
+            desc, outs, want = bad[cls]
+            chk.refuted(rid, f.name, cls, f.entry.term.locstr(),
+                        "json_object_equal gives %s for %s; structural equality is %d" % ("/".join(map(str, sorted(outs))), desc, want),
+                        {"pair": desc})
+        elif cls in und:
+            chk.undecided(rid, f.name, cls, f.entry.term.locstr(),
+                          "the evaluation of %s does not reach a concrete result%s" %
+                          (und[cls][0], (" (calls outside the script: %s)" % ", ".join(und[cls][1])) if und[cls][1] else ""))
+        else:
+            chk.proven(rid, f.name, cls, f.entry.term.locstr(), "as required on %d scripted pairs" % cls_of.get(cls, 0))
+    # ---- arrays
+    arrs = [[]] + [list(vs) for ln in (1, 2) for vs in product((None, "v1", "v2"), repeat=ln)]
+    AORDER = ("arrays: same length, equal elements", "arrays: same length, an element differs", "arrays: different lengths")
+    bad, und, cnt = {}, {}, {}
+    for L in arrs:
+        for Rr in arrs:
+            left = [None if v is None else ("l_%d" % k, v) for k, v in enumerate(L)]
+            right = [None if v is None else ("r_%d" % k, v) for k, v in enumerate(Rr)]
+            if len(L) != len(Rr):
+                cls, want = AORDER[2], 0
+            elif L == Rr:
+                cls, want = AORDER[0], 1
+            else:
+                cls, want = AORDER[1], 0
+            h = _EqPE(prog, m, "array", left, right)
+            leaves = h.run(f, [("ptr", "o1", ()), ("ptr", "o2", ())], pe.State())
+            n += 1
+            cnt[cls] = cnt.get(cls, 0) + 1
+            outs = set()
+            for lf in leaves:
+                if lf.kind == "ret" and lf.value is not None and pe.is_const(lf.value):
+                    outs.add(int(lf.value[1] != 0))
+                else:
+                    outs.add("?")
+            desc = "[%s] against [%s]" % (", ".join(v or "null" for v in L), ", ".join(v or "null" for v in Rr))
+            if "?" in outs or not outs:
+                und.setdefault(cls, (desc, sorted(set(h.unknown))))
+            elif outs != {want}:
+                bad.setdefault(cls, (desc, outs, want))
+    for cls in AORDER:
+        if cls in bad:
+            desc, outs, want = bad[cls]
+            chk.refuted(rid, f.name, cls, f.entry.term.locstr(),
+                        "json_object_equal gives %s for %s; structural equality is %d" % ("/".join(map(str, sorted(outs))), desc, want),
+                        {"pair": desc})
+        elif cls in und:
+            chk.undecided(rid, f.name, cls, f.entry.term.locstr(),
+                          "the evaluation of %s does not reach a concrete result%s" %
+                          (und[cls][0], (" (calls outside the script: %s)" % ", ".join(und[cls][1])) if und[cls][1] else ""))
+        else:
+            chk.proven(rid, f.name, cls, f.entry.term.locstr(), "as required on %d scripted pairs" % cnt.get(cls, 0))
+    chk.floor(rid, n, 700, "scripted container pairs evaluated")
 
 
 def r5(chk, prog, m):
@@ -365,3 +618,120 @@ def r6(chk, prog, m):
             chk.refuted(rid, f.name, sig, f.entry.term.locstr(), bad)
         else:
             chk.proven(rid, f.name, sig, f.entry.term.locstr(), "copied with %s, serializer carried over" % want)
+    _r6_serializer_data(chk, prog, m, rid)
+
+
+def _r6_serializer_data(chk, prog, m, rid, announce=False):
+    """the routine that copies serializer user data, evaluated for each serializer function the library itself installs together
+    with user data: afterwards the copy has the *same* serializer function as the source (the setters recognise the library's own
+    wrapper by its address), its own user data block and the source's delete function"""
+    from ..strpe import StrPE
+    if announce:
+        chk.rule(rid, "the routine that copies serializer user data in a deep copy, evaluated for each serializer function the library "
+                      "installs together with user data: the copy keeps the same serializer function (the setters recognise the library's "
+                      "own wrapper by its address and drop the retained number text through it), gets its own user data block and the "
+                      "source's delete function")
+    g = m.functions.get("json_object_copy_serializer_data")
+    if g is None or g.is_decl:
+        return
+    chk.touched(g)
+    names = m.struct_fields("%struct.json_object")
+    if not names or "_to_json_string" not in names:
+        chk.undecided(rid, g.name, "serializer data", g.entry.term.locstr(), "field names of struct json_object not available")
+        return
+    IDX = {nm: k for k, nm in enumerate(names)}
+    # the serializer functions that the library installs with user data (found as arguments of json_object_set_serializer together
+    # with a non-null user data argument, or compared against in the routine itself)
+    fns = set()
+    for i in g.instrs():
+        if i.op == "icmp":
+            for o in i.ops:
+                o2 = strip_casts(o)
+                if o2.kind == "global" and o2.v in m.functions:
+                    fns.add(o2.v)
+    if not fns:
+        chk.undecided(rid, g.name, "serializer data", g.entry.term.locstr(), "the routine compares the serializer with no known function")
+        return
+
+    class SerPE(StrPE):
+        model_alloc = True
+
+        def should_inline(self, gg, instr):
+            return gg.internal or gg.name in ("json_object_set_serializer", "json_object_set_userdata")
+
+        def init_mem(self, state, base, path, t):
+            q = [x for x in path if x != ("i", 0)]
+            k = 0
+            if q:
+                k = q[0] if isinstance(q[0], int) else (q[0][2] if isinstance(q[0], tuple) and q[0][0] == "f" else None)
+            if base in ("src", "dst") and k is not None and k < len(names) and len(q) <= 1:
+                fld = names[k]
+                if fld == "o_type":
+                    return pe.C(TYPES["double"])
+                if fld == "_to_json_string":
+                    return ("ptr", "@" + self.fn_name, ())
+                if base == "src":
+                    if fld == "_userdata":
+                        return ("ptr", "ud", ())
+                    if fld == "_user_delete":
+                        return ("ptr", "@json_object_free_userdata", ())
+                else:
+                    if fld in ("_userdata", "_user_delete", "_pb"):
+                        return pe.C(0)
+            if base == "ud":
+                el, fl = pe.fields_of(path)
+                txt = b"1.50\0"
+                if not fl and isinstance(el, int) and 0 <= el < len(txt):
+                    return pe.C(txt[el])
+            return pe.TOP
+
+        def call_model(self, state, frame, i, args):
+            if i.callee in ("_json_c_set_last_err", "__assert_fail"):
+                return pe.C(0)
+            return self.libc_string_model(state, frame, i, args)
+    for fn_name in sorted(fns):
+        P = SerPE(prog, max_leaves=40, max_steps=20000)
+        P.fn_name = fn_name
+        sig = "user data of a node serialized by %s" % fn_name
+        try:
+            leaves = P.run(g, [("ptr", "src", ()), ("ptr", "dst", ())], pe.State())
+        except Exception as e:
+            chk.undecided(rid, g.name, sig, g.entry.term.locstr(), str(e))
+            continue
+        bad = None
+        und = None
+        ok = 0
+        for l in leaves:
+            if l.kind != "ret" or l.value != pe.C(0):
+                continue
+            ok += 1
+
+            def fld(nm, l=l):
+                for loc, v in l.state.mem.items():
+                    if loc[0] == "dst":
+                        q = [x for x in loc[1] if x != ("i", 0)]
+                        k = 0 if not q else (q[0] if isinstance(q[0], int) else q[0][2] if isinstance(q[0], tuple) and q[0][0] == "f" else None)
+                        if k == IDX[nm] and len(q) <= 1:
+                            return v
+                return None
+            ser = fld("_to_json_string")
+            if ser is not None and pe._norm_ptr(ser) != pe._norm_ptr(("ptr", "@" + fn_name, ())):
+                bad = ("the copy of a node whose serializer is %s ends up with the serializer %s: code that recognises the library's own "
+                       "wrapper by its address (e.g. a later json_object_set_double dropping the retained text) no longer does, and the "
+                       "copy serializes stale text" % (fn_name, ser[1].lstrip("@") if ser[0] == "ptr" else ser))
+            ud = fld("_userdata")
+            if bad is None and ud is not None and ud[0] == "ptr" and ud[1] == "ud":
+                bad = "the copy's user data is the source's own block, not a block of its own"
+            elif bad is None and (ud is None or ud[0] != "ptr"):
+                und = "what the copy's user data holds afterwards is not visible to the evaluation"
+            dl = fld("_user_delete")
+            if bad is None and dl is not None and dl[0] in ("ptr", "c") and pe._norm_ptr(dl) != pe._norm_ptr(("ptr", "@json_object_free_userdata", ())):
+                bad = "the copy's user-data delete function is not the source's"
+            elif bad is None and dl is None:
+                und = "what the copy's delete function is afterwards is not visible to the evaluation"
+        if bad:
+            chk.refuted(rid, g.name, sig, g.entry.term.locstr(), bad)
+        elif ok == 0 or und:
+            chk.undecided(rid, g.name, sig, g.entry.term.locstr(), und or "no successful path was evaluated")
+        else:
+            chk.proven(rid, g.name, sig, g.entry.term.locstr(), "same serializer function, own user data block, same delete function")
